@@ -38,6 +38,8 @@ class ExprMixin(object):
       return VGlobal(base.path + '.' + attr)
     if isinstance(base, VRef):
       cls = base.ty.name if base.ty.kind == 'obj' else None
+      if base.ty.kind == 'opt' and base.ty.args and base.ty.args[0].kind == 'obj':
+        cls = base.ty.args[0].name
       if cls and self.world.is_property(cls, attr):
         if spec:
           rt = self.pure_ret_type('prop.' + attr)
@@ -208,6 +210,16 @@ class ExprMixin(object):
       if isinstance(base, Exc):
         yield st1, base
         continue
+      if isinstance(base, VRef) and base.ty.kind == 'opt' and base.ty.args and base.ty.args[0].kind == 'obj' \
+          and getattr(self, 'mode', 'vc') != 'event':
+        # attribute of an Optional[obj]: AttributeError when it is None, the object otherwise
+        s_none = st1.fork()
+        s_none.assume(base.t == NONE)
+        if self.feasible(s_none):
+          yield s_none, Exc('AttributeError')
+        st1.assume(base.t != NONE)
+        base = VRef(base.t, base.ty.args[0])
+        ops.assume_type(base, st1)
       v = self.read_attr(base, n.attr, st1)
       if isinstance(v, VBound) and v.name.startswith('@property:'):
         yield from self.call_property(v.recv, v.name[len('@property:'):], st1)
